@@ -11,7 +11,7 @@ What is read (non-recursive engine; fail closed - an unknown shape is an AnchorE
   * ElemCallTemplate / ElemApplyTemplates / ElemApplyImport push themselves as invoker and pop; xsl:apply-imports
     tests getCurrentTemplate() == 0 first and raises NoCurrentTemplate;
   * StylesheetExecutionContextDefault::reset / push / pop / getCurrentTemplate on m_currentTemplateStack;
-  * VariablesStack::findXObject evaluates a top-level variable with (PushAndPopCurrentTemplate(.., 0)) or without
+  * VariablesStack::findXObject evaluates a top-level variable with (pushCurrentTemplate(0) .. popCurrentTemplate() around getValue) or without
     (the code now) a null current rule -> gen_global_null;
   * ElemTemplateElement::executeChildren (used by ElemVariable::getValue) takes the shortcut through execute() of
     the template (the code now) or executes the xsl:call-template child instead -> gen_global_direct;
@@ -156,8 +156,10 @@ def gen_currule():
         raise AnchorError("VariablesStack::findXObject: var->getValue(executionContext, doc) not found")
     if "CurrentTemplate" not in toks(vs):
         facts["global_null"] = False
-    elif re.search(r"StylesheetExecutionContext :: PushAndPopCurrentTemplate \w+ \( executionContext , 0 \) ; .*var -> getValue \( executionContext , doc \)", fx_) \
-            and toks(vs).count("CurrentTemplate") == 1:
+    elif re.search(r"executionContext \. pushContextMarker \( \) ; executionContext \. pushCurrentTemplate \( 0 \) ; .*"
+                   r"var -> getValue \( executionContext , doc \) ; .*"
+                   r"executionContext \. popCurrentTemplate \( \) ; executionContext \. popContextMarker \( \) ;", fx_) \
+            and toks(vs).count("CurrentTemplate") == 2:
         facts["global_null"] = True
     else:
         raise AnchorError("VariablesStack.cpp touches the current template in a way that is not recognised")
